@@ -122,6 +122,10 @@ def oracle_unchanged_rebuild(case, obs, stats):
     h = case["history"]
     if dir_size_observed(obs):
         return []
+    if gen.cache_only_dirs(case):
+        # the latitude stated with C04: when a directory that exists only to hold the cache file
+        # appears in listings is unspecified, so a recorded listing may legitimately answer differently
+        return []
     for i in range(1, len(h)):
         if h[i][0] == "build" and h[i - 1][0] == "build" and h[i][1] == h[i - 1][1] and h[i][2] == h[i - 1][2]:
             if not obs[i - 1][0].startswith("ok:") or not obs[i][0].startswith("ok:"):
@@ -233,8 +237,12 @@ def execute(pid, rep, tier, workdir, make_cases, oracles, nontrivial, use_spec=T
                 for k2, (r, g) in enumerate(zip(req, red)):
                     gg = [g[0]] + g[1] + ["--tree"] + g[2]
                     if r[0] != "mutated" and r != gg and not _req_ok(r, gg):
+                        if cases[i].get("faults") and "OSError" in gg[0]:
+                            continue    # the injected OSError surfaced in this step; the reference has no faults
                         step = k2
                         break
+            if cases[i].get("faults") and req and step is None:
+                continue
             res.fails.append({"oracle": "reference semantics (Spec/Ref.v)", "case": cases[i], "step": step,
                               "required": req[step] if req and step is not None else req,
                               "implementation": ([red[step][0]] + red[step][1] + ["--tree"] + red[step][2]) if step is not None else None})
